@@ -11,6 +11,8 @@ mod ordering;
 mod search;
 mod storage;
 mod companion;
+#[cfg(garnish_verif)]
+mod verif;
 
 pub use object::{BasicObject};
 pub use data::{BasicData, BasicDataUnitCustom};
@@ -20,3 +22,5 @@ pub use companion::BasicDataCompanion;
 pub use basic::NoOpCompanion;
 
 pub use basic::*;
+#[cfg(garnish_verif)]
+pub use storage::{ReallocationStrategy, StorageSettings};
